@@ -121,7 +121,15 @@ fn run_plain(clauses: &[ClauseSpec], history: &[Call]) -> Observed {
 /// `VerifyHow::Verify`: the original is told not to verify in drop right after construction (the
 /// clones made afterwards inherit that) and is judged by an explicit verify() at the end.
 fn run_how(clauses: &[ClauseSpec], history: &[Call], how: VerifyHow) -> Observed {
-    let original = Unimock::new(build_clause(clauses));
+    run_mock(Unimock::new(build_clause(clauses)), history, how)
+}
+
+/// The same clauses in a partial mock (calls nothing answers go to the real functions).
+fn run_partial(clauses: &[ClauseSpec], history: &[Call]) -> Observed {
+    run_mock(Unimock::new_partial(build_clause(clauses)), history, VerifyHow::Drop)
+}
+
+fn run_mock(original: Unimock, history: &[Call], how: VerifyHow) -> Observed {
     let original = if how == VerifyHow::Verify { original.no_verify_in_drop() } else { original };
     let n_clones = history.iter().map(|c| c.via & 0x7f).max().unwrap_or(0) as usize;
     let clones: Vec<Unimock> = (0..n_clones).map(|_| original.clone()).collect();
@@ -420,6 +428,42 @@ fn main() {
                         .set("variant_clauses", clauses_json(clauses))
                         .set("baseline_history", history_to_json(h))
                         .set("variant_history", history_to_json(&routed)),
+                );
+            }
+        }
+        st
+    });
+    for p in parts {
+        stats.merge(p);
+    }
+
+    // (b, partial) the routing relation on a partial mock, over calls that fall through to real
+    // functions and default bodies
+    let alphabet_p = vec![Call::new(M::A, 0), Call::new(M::Both, 0), Call::new(M::Both, 1), Call::new(M::Unm, 0), Call::new(M::Def, 0)];
+    let hist_p = sequences(&alphabet_p, if quick { 2 } else { 3 });
+    let parts = par_map(&hist_p, |_, h| {
+        let mut st = Stats::default();
+        let clauses = &bases[1];
+        let base = run_partial(clauses, h);
+        for r in sequences(&[0u8, 1, 2, 0x80], h.len()) {
+            if r.iter().all(|v| *v == 0) {
+                continue;
+            }
+            ctx.tick();
+            let routed: Vec<Call> = h.iter().zip(&r).map(|(c, via)| Call { via: *via, ..*c }).collect();
+            let var = run_partial(clauses, &routed);
+            st.add("transitions", h.len() as u64);
+            st.add("traces_validated_against_impl", 1);
+            st.add("b_routings_partial", 1);
+            if base != var {
+                ctx.violation(
+                    "b:routing-partial",
+                    &format!(
+                        "partial mock: routing {} as {} changes the run: baseline {base:?}, routed {var:?}",
+                        history_to_json(h).to_string(),
+                        history_to_json(&routed).to_string()
+                    ),
+                    J::obj().set("relation", "b-partial"),
                 );
             }
         }
